@@ -9,7 +9,7 @@ import os, re, warnings
 import numpy as np
 import vlib
 
-LEVEL_TEXT = ('Lean 4 theorems about tables regenerated from the source on every run (the content is the 15+3 generated cells and the class table; `run_eq_doc`/`final_eq_doc` lift them to programs of any length by a two-line induction ; further: fft_typing, no_write_before_guard, propagate_no_write_before_guard, class_run_eq_doc, typed_wavefront_stays_typed, table_driven_all_but_rotate_flip): all 15 cells of the code table equal the '
+LEVEL_TEXT = ('Lean 4 theorems about tables regenerated from the source on every run (the content is the 15+3 generated cells and the class table; `run_eq_doc`/`final_eq_doc` lift them to programs of any length by a two-line induction ; further: fft_typing, no_write_before_guard, propagate_no_write_before_guard, caller_ptype_table (Gen.classPtypeWith, regenerated from the constructor chains: a class either refuses a caller-supplied ptype keyword for every type — Pupil, Image, Rotate, Flip: TypeError at construction — or takes exactly the type given — Plane, LensletArray, Tilt, DispersiveTilt, Grism), class_run_eq_doc, typed_wavefront_stays_typed, table_driven_all_but_rotate_flip): all 15 cells of the code table equal the '
               'documented RST table; propagation typing; for every program of any length (induction) the code machine and the '
               'documented machine give the same trace of types/refusals; every documented '
               'class except Rotate/Flip has its documented ptype and acts as documented (partial: Rotate/Flip are an open known '
